@@ -2,10 +2,10 @@ import EchVerif.Lemmas.DNS
 /-
   C13 — the DNS codec round-trips and agrees with an independent RFC 1035/9460 codec.
   Proved here: the name codec round trip (the part everything else rests on), the header round trip,
-  the whole-message round trip for messages made of questions and A / AAAA / NS / CNAME / PTR / OPT
-  records, the padding length law and the extended-RCODE law. The round trip of HTTPS / SVCB RDATA
-  and the agreement with golang.org/x/net/dns/dnsmessage are carried by the correspondence
-  campaign (exhaustive over headers and question-name lengths) — see DESIGN.md ("partial").
+  the whole-message round trip for every message the encoder can write (questions and A / AAAA /
+  NS / CNAME / PTR / OPT / HTTPS records), the padding length law and the extended-RCODE law. The
+  agreement with golang.org/x/net/dns/dnsmessage (both directions, record types only the decoder
+  knows, compression written by the other side) is carried by the correspondence campaign (exhaustive over headers and question-name lengths) — see DESIGN.md ("partial").
 -/
 open Wire
 namespace DNS
@@ -259,7 +259,7 @@ theorem C13_padding (m m' : EMessage) (b' : Bytes) (h : addPadding m = some m') 
     all_goals simp at h
   · simp at h
 
-/-! ### whole-message round trip (questions; A / AAAA / NS / CNAME / PTR / OPT records) -/
+/-! ### whole-message round trip (questions; A / AAAA / NS / CNAME / PTR / OPT / HTTPS records) -/
 
 /-- the labels the encoder writes for a Go string: none for "", else split on dots -/
 def toName (s : Bytes) : Name := if s = [] then [] else splitDots s
@@ -346,14 +346,23 @@ def toRData : EData → RData
   | .ip b => .ip b
   | .str s => .name (splitDots s)
   | .opts l => .opt l
+  | .https prio target alpn nd port v4 v6 ech =>
+    .https { priority := prio, target := toName target, alpn := alpn, noDefaultALPN := nd, port := port,
+             v4 := v4, v6 := v6, ech := ech }
   | _ => .raw []
 
-/-- RDATA the round-trip theorem covers: addresses of the right size for A / AAAA, a well-formed
-    name for NS / CNAME / PTR, EDNS options for OPT -/
+/-- RDATA the round-trip theorem covers — everything `RR.Bytes` can write: addresses of the right
+    size for A / AAAA, a well-formed name for NS / CNAME / PTR, EDNS options for OPT, and HTTPS
+    records (priority, target, alpn, no-default-alpn, port, ipv4hint, ech, ipv6hint) -/
 def DataOk (typ : Nat) : EData → Prop
   | .ip b => (typ = 1 ∧ b.length = 4) ∨ (typ = 28 ∧ b.length = 16)
   | .str s => (typ = 2 ∨ typ = 5 ∨ typ = 12) ∧ LabelsOk (splitDots s) ∧ octets (splitDots s) ≤ 255
   | .opts l => typ = 41 ∧ ∀ o ∈ l, o.code < 65536 ∧ o.data.length < 65536
+  | .https prio target alpn _ port v4 v6 ech =>
+    typ = 65 ∧ prio < 65536 ∧ NameOk target ∧ port < 65536 ∧ ech.length < 65536 ∧
+    (∀ ab, encAlpn alpn = some ab → ab.length < 65536) ∧
+    (∀ a ∈ v4, a.length = 4) ∧ v4.flatten.length < 65536 ∧
+    (∀ a ∈ v6, a.length = 16) ∧ v6.flatten.length < 65536
   | _ => False
 
 def RROk (r : ERR) : Prop :=
@@ -402,6 +411,283 @@ theorem optsF_enc (l : List Opt) : ∀ (eb : Bytes) (fuel : Nat), encOpts l = so
         simp only [optsF, hne, if_false, h1, h2, h3, Option.map_some]
     · simp at he
 
+/-! #### HTTPS RDATA -/
+
+theorem encAlpn_len (l : List Bytes) : ∀ b, encAlpn l = some b → l.length ≤ b.length := by
+  induction l with
+  | nil => intro b _; simp
+  | cons p ps ih =>
+    intro b he
+    simp only [encAlpn] at he
+    split at he
+    · rename_i a c ha hc
+      simp only [Option.some.injEq] at he
+      subst he
+      have := ih c hc
+      simp only [lp8] at ha
+      split at ha
+      · simp only [Option.some.injEq] at ha; subst ha; simp [u8]; omega
+      · simp at ha
+    · simp at he
+
+theorem lp8ListF_enc (l : List Bytes) : ∀ (b : Bytes) (fuel : Nat), encAlpn l = some b → l.length ≤ fuel →
+    lp8ListF fuel b = some l := by
+  induction l with
+  | nil =>
+    intro b fuel he _
+    simp only [encAlpn, Option.some.injEq] at he
+    subst he
+    cases fuel <;> simp [lp8ListF]
+  | cons p ps ih =>
+    intro b fuel he hf
+    simp only [encAlpn] at he
+    split at he
+    · rename_i a c ha hc
+      simp only [Option.some.injEq] at he
+      subst he
+      cases fuel with
+      | zero => simp at hf
+      | succ k =>
+        have h1 : readLP8 (a ++ c) = some (p, c) := readLP8_lp8 ha c
+        have hne : a ++ c ≠ [] := by
+          simp only [lp8] at ha
+          split at ha
+          · simp only [Option.some.injEq] at ha; subst ha; simp [u8]
+          · simp at ha
+        have h2 := ih c k hc (by simp at hf; omega)
+        simp only [lp8ListF, hne, if_false, h1, h2, Option.map_some]
+    · simp at he
+
+theorem flatten_len (l : List Bytes) (k : Nat) (hk : 0 < k) (h : ∀ a ∈ l, a.length = k) : l.length ≤ l.flatten.length := by
+  induction l with
+  | nil => simp
+  | cons a as ih =>
+    have := ih (fun x hx => h x (by simp [hx]))
+    have := h a (by simp)
+    simp only [List.length_cons, List.flatten_cons, List.length_append]; omega
+
+theorem chunksOfF_flat (l : List Bytes) (k : Nat) (hk : 0 < k) : ∀ (fuel : Nat), (∀ a ∈ l, a.length = k) → l.length ≤ fuel →
+    chunksOfF fuel k l.flatten = some l := by
+  induction l with
+  | nil => intro fuel _ _; cases fuel <;> simp [chunksOfF]
+  | cons a as ih =>
+    intro fuel h hf
+    have ha := h a (by simp)
+    cases fuel with
+    | zero => simp at hf
+    | succ f =>
+      have hne : (a :: as).flatten ≠ [] := by
+        simp only [List.flatten_cons, ne_eq, List.append_eq_nil_iff, not_and]
+        intro h0; subst h0; simp at ha; omega
+      have h1 : readN k (a ++ as.flatten) = some (a, as.flatten) := readN_append' a _ ha
+      have h2 := ih f (fun x hx => h x (by simp [hx])) (by simp at hf; omega)
+      simp only [List.flatten_cons] at hne ⊢
+      simp only [chunksOfF, hne, if_false, h1, h2, Option.map_some]
+
+theorem param_len (k : Nat) (v x : Bytes) (h : param k v = some x) : 1 ≤ x.length := by
+  simp only [param] at h
+  cases hl : lp16 v with
+  | none => rw [hl] at h; simp at h
+  | some y => rw [hl] at h; simp only [Option.map_some, Option.some.injEq] at h; subst h; simp [u16]
+
+/-- the `switch key` of the parameter loop -/
+def hpInterp (k : Nat) (v : Bytes) (h : Https) : Option Https :=
+  if k = 1 then (lp8ListF v.length v).map fun l => { h with alpn := h.alpn ++ l }
+  else if k = 2 then some { h with noDefaultALPN := true }
+  else if k = 3 then (readU16 v).map fun (p, _) => { h with port := p }
+  else if k = 4 then (chunksOfF v.length 4 v).map fun l => { h with v4 := h.v4 ++ l }
+  else if k = 5 then some { h with ech := v }
+  else if k = 6 then (chunksOfF v.length 16 v).map fun l => { h with v6 := h.v6 ++ l }
+  else some h
+
+theorem hpInterp_1 (v : Bytes) (h : Https) : hpInterp 1 v h = (lp8ListF v.length v).map fun l => { h with alpn := h.alpn ++ l } := by
+  simp [hpInterp]
+theorem hpInterp_2 (v : Bytes) (h : Https) : hpInterp 2 v h = some { h with noDefaultALPN := true } := by
+  simp [hpInterp]
+theorem hpInterp_3 (v : Bytes) (h : Https) : hpInterp 3 v h = (readU16 v).map fun (p, _) => { h with port := p } := by
+  simp [hpInterp]
+theorem hpInterp_4 (v : Bytes) (h : Https) : hpInterp 4 v h = (chunksOfF v.length 4 v).map fun l => { h with v4 := h.v4 ++ l } := by
+  simp [hpInterp]
+theorem hpInterp_5 (v : Bytes) (h : Https) : hpInterp 5 v h = some { h with ech := v } := by
+  simp [hpInterp]
+theorem hpInterp_6 (v : Bytes) (h : Https) : hpInterp 6 v h = (chunksOfF v.length 16 v).map fun l => { h with v6 := h.v6 ++ l } := by
+  simp [hpInterp]
+
+theorem httpsParamsF_nil (fuel : Nat) (h : Https) : httpsParamsF fuel [] h = some h := by
+  cases fuel <;> simp [httpsParamsF]
+
+/-- one parameter: key, 16-bit length, value -/
+theorem httpsParamsF_cons (fuel k : Nat) (v rest : Bytes) (h : Https) (hk : k < 65536) (hv : v.length < 65536) :
+    httpsParamsF (fuel + 1) (u16 k ++ (u16 v.length ++ v) ++ rest) h =
+      (hpInterp k v h).bind (httpsParamsF fuel rest) := by
+  have hne : u16 k ++ (u16 v.length ++ v) ++ rest ≠ [] := by simp [u16]
+  have h1 : readU16 (u16 k ++ (u16 v.length ++ v) ++ rest) = some (k, (u16 v.length ++ v) ++ rest) := by
+    rw [List.append_assoc]; exact readU16_u16 hk _
+  have h2 : readLP16 ((u16 v.length ++ v) ++ rest) = some (v, rest) :=
+    readLP16_lp16 (x := v) (e := u16 v.length ++ v) (by simp [lp16, hv]) rest
+  simp only [httpsParamsF, hne, if_false, h1, h2]
+  unfold hpInterp
+  cases hi : (if k = 1 then (lp8ListF v.length v).map fun l => { h with alpn := h.alpn ++ l }
+      else if k = 2 then some { h with noDefaultALPN := true }
+      else if k = 3 then (readU16 v).map fun (p, _) => { h with port := p }
+      else if k = 4 then (chunksOfF v.length 4 v).map fun l => { h with v4 := h.v4 ++ l }
+      else if k = 5 then some { h with ech := v }
+      else if k = 6 then (chunksOfF v.length 16 v).map fun l => { h with v6 := h.v6 ++ l }
+      else some h) <;> simp
+
+/-- the parameters the encoder writes, in its order, are read back into the same fields -/
+theorem httpsParams_enc (alpn : List Bytes) (nd : Bool) (port : Nat) (v4 v6 : List Bytes) (ech a h4 e h6 : Bytes)
+    (h0 : Https) (fuel : Nat)
+    (ha : (if alpn = [] then some [] else (encAlpn alpn).bind (param 1)) = some a)
+    (hh4 : (if v4 = [] then some [] else param 4 v4.flatten) = some h4)
+    (he : (if ech = [] then some [] else param 5 ech) = some e)
+    (hh6 : (if v6 = [] then some [] else param 6 v6.flatten) = some h6)
+    (hport : port < 65536) (hv4 : ∀ x ∈ v4, x.length = 4) (hv6 : ∀ x ∈ v6, x.length = 16)
+    (hf : (if alpn = [] then 0 else 1) + (if nd then 1 else 0) + (if port > 0 then 1 else 0) +
+          (if v4 = [] then 0 else 1) + (if ech = [] then 0 else 1) + (if v6 = [] then 0 else 1) ≤ fuel) :
+    httpsParamsF fuel (a ++ (if nd then u16 2 ++ u16 0 else []) ++
+        (if port > 0 then u16 3 ++ u16 2 ++ u16 port else []) ++ h4 ++ e ++ h6) h0 =
+      some { h0 with alpn := h0.alpn ++ alpn, noDefaultALPN := (if nd then true else h0.noDefaultALPN),
+                     port := (if port > 0 then port else h0.port), v4 := h0.v4 ++ v4,
+                     ech := (if ech = [] then h0.ech else ech), v6 := h0.v6 ++ v6 } := by
+  -- segment 6
+  have r6 : ∀ (f : Nat) (h : Https), (if v6 = [] then 0 else 1) ≤ f → httpsParamsF f h6 h = some { h with v6 := h.v6 ++ v6 } := by
+    intro f h hf1
+    by_cases hz : v6 = []
+    · subst hz; simp only [if_true, Option.some.injEq] at hh6; subst hh6
+      simp [httpsParamsF_nil]
+    · simp only [hz, if_false] at hf1
+      simp only [hz, if_false, param] at hh6
+      cases hl : lp16 v6.flatten with
+      | none => rw [hl] at hh6; simp at hh6
+      | some x =>
+        rw [hl] at hh6; simp only [Option.map_some, Option.some.injEq] at hh6; subst hh6
+        simp only [lp16] at hl
+        split at hl
+        · rename_i hlt
+          simp only [Option.some.injEq] at hl; subst hl
+          obtain ⟨f', rfl⟩ : ∃ f', f = f' + 1 := ⟨f - 1, by omega⟩
+          have := httpsParamsF_cons f' 6 v6.flatten [] h (by omega) hlt
+          simp only [List.append_nil] at this
+          rw [this]
+          have hc := chunksOfF_flat v6 16 (by omega) v6.flatten.length hv6 (flatten_len v6 16 (by omega) hv6)
+          simp only [hpInterp_6, hc, Option.map_some, Option.bind_some, httpsParamsF_nil]
+        · simp at hl
+  -- segment 5
+  have r5 : ∀ (f : Nat) (h : Https), (if ech = [] then 0 else 1) + (if v6 = [] then 0 else 1) ≤ f → httpsParamsF f (e ++ h6) h =
+      some { h with ech := (if ech = [] then h.ech else ech), v6 := h.v6 ++ v6 } := by
+    intro f h hf1
+    by_cases hz : ech = []
+    · subst hz; simp only [if_true, Option.some.injEq] at he; subst he
+      simp only [if_true, Nat.zero_add] at hf1
+      simpa using r6 f h hf1
+    · simp only [hz, if_false] at hf1
+      simp only [hz, if_false, param] at he
+      cases hl : lp16 ech with
+      | none => rw [hl] at he; simp at he
+      | some x =>
+        rw [hl] at he; simp only [Option.map_some, Option.some.injEq] at he; subst he
+        simp only [lp16] at hl
+        split at hl
+        · rename_i hlt
+          simp only [Option.some.injEq] at hl; subst hl
+          obtain ⟨f', rfl⟩ : ∃ f', f = f' + 1 := ⟨f - 1, by omega⟩
+          have := httpsParamsF_cons f' 5 ech h6 h (by omega) hlt
+          rw [this]
+          simp only [hpInterp_5, Option.bind_some, r6 f' _ (by omega), hz, if_false]
+        · simp at hl
+  -- segment 4
+  have r4 : ∀ (f : Nat) (h : Https), (if v4 = [] then 0 else 1) + (if ech = [] then 0 else 1) + (if v6 = [] then 0 else 1) ≤ f → httpsParamsF f (h4 ++ (e ++ h6)) h =
+      some { h with v4 := h.v4 ++ v4, ech := (if ech = [] then h.ech else ech), v6 := h.v6 ++ v6 } := by
+    intro f h hf1
+    by_cases hz : v4 = []
+    · subst hz; simp only [if_true, Option.some.injEq] at hh4; subst hh4
+      simp only [if_true, Nat.zero_add] at hf1
+      simpa using r5 f h hf1
+    · simp only [hz, if_false] at hf1
+      simp only [hz, if_false, param] at hh4
+      cases hl : lp16 v4.flatten with
+      | none => rw [hl] at hh4; simp at hh4
+      | some x =>
+        rw [hl] at hh4; simp only [Option.map_some, Option.some.injEq] at hh4; subst hh4
+        simp only [lp16] at hl
+        split at hl
+        · rename_i hlt
+          simp only [Option.some.injEq] at hl; subst hl
+          obtain ⟨f', rfl⟩ : ∃ f', f = f' + 1 := ⟨f - 1, by omega⟩
+          have := httpsParamsF_cons f' 4 v4.flatten (e ++ h6) h (by omega) hlt
+          rw [this]
+          have hc := chunksOfF_flat v4 4 (by omega) v4.flatten.length hv4 (flatten_len v4 4 (by omega) hv4)
+          simp only [hpInterp_4, hc, Option.map_some, Option.bind_some, r5 f' _ (by omega)]
+        · simp at hl
+  -- segment 3
+  have r3 : ∀ (f : Nat) (h : Https), (if port > 0 then 1 else 0) + (if v4 = [] then 0 else 1) + (if ech = [] then 0 else 1) + (if v6 = [] then 0 else 1) ≤ f →
+      httpsParamsF f ((if port > 0 then u16 3 ++ u16 2 ++ u16 port else []) ++ (h4 ++ (e ++ h6))) h =
+      some { h with port := (if port > 0 then port else h.port), v4 := h.v4 ++ v4,
+                    ech := (if ech = [] then h.ech else ech), v6 := h.v6 ++ v6 } := by
+    intro f h hf1
+    by_cases hz : port > 0
+    · simp only [hz, if_true] at hf1 ⊢
+      obtain ⟨f', rfl⟩ : ∃ f', f = f' + 1 := ⟨f - 1, by omega⟩
+      have := httpsParamsF_cons f' 3 (u16 port) (h4 ++ (e ++ h6)) h (by omega) (by simp [u16])
+      have hlen : (u16 port).length = 2 := by simp [u16]
+      rw [hlen] at this
+      simp only [List.append_assoc] at this ⊢
+      rw [this]
+      have hr : readU16 (u16 port) = some (port, []) := by
+        have := readU16_u16 hport []
+        simpa using this
+      simp only [hpInterp_3, hr, Option.map_some, Option.bind_some, r4 f' _ (by omega)]
+    · simp only [hz, if_false, List.nil_append, Nat.zero_add] at hf1 ⊢
+      simpa using r4 f h hf1
+  -- segment 2
+  have r2 : ∀ (f : Nat) (h : Https), (if nd then 1 else 0) + (if port > 0 then 1 else 0) + (if v4 = [] then 0 else 1) + (if ech = [] then 0 else 1) + (if v6 = [] then 0 else 1) ≤ f →
+      httpsParamsF f ((if nd then u16 2 ++ u16 0 else []) ++ ((if port > 0 then u16 3 ++ u16 2 ++ u16 port else []) ++ (h4 ++ (e ++ h6)))) h =
+      some { h with noDefaultALPN := (if nd then true else h.noDefaultALPN), port := (if port > 0 then port else h.port),
+                    v4 := h.v4 ++ v4, ech := (if ech = [] then h.ech else ech), v6 := h.v6 ++ v6 } := by
+    intro f h hf1
+    cases nd with
+    | true =>
+      simp only [if_true] at hf1 ⊢
+      obtain ⟨f', rfl⟩ : ∃ f', f = f' + 1 := ⟨f - 1, by omega⟩
+      have := httpsParamsF_cons f' 2 [] ((if port > 0 then u16 3 ++ u16 2 ++ u16 port else []) ++ (h4 ++ (e ++ h6))) h (by omega) (by simp)
+      simp only [List.length_nil, List.append_nil] at this
+      rw [this]
+      simp only [hpInterp_2, Option.bind_some, r3 f' _ (by omega)]
+    | false =>
+      simp only [Bool.false_eq_true, if_false, List.nil_append, Nat.zero_add] at hf1 ⊢
+      simpa using r3 f h hf1
+  -- segment 1
+  have hassoc : a ++ (if nd then u16 2 ++ u16 0 else []) ++ (if port > 0 then u16 3 ++ u16 2 ++ u16 port else []) ++ h4 ++ e ++ h6 =
+      a ++ ((if nd then u16 2 ++ u16 0 else []) ++ ((if port > 0 then u16 3 ++ u16 2 ++ u16 port else []) ++ (h4 ++ (e ++ h6)))) := by
+    simp [List.append_assoc]
+  rw [hassoc]
+  by_cases hz : alpn = []
+  · subst hz; simp only [if_true, Option.some.injEq] at ha; subst ha
+    simp only [if_true, Nat.zero_add] at hf
+    simpa using r2 fuel h0 hf
+  · simp only [hz, if_false] at hf
+    simp only [hz, if_false] at ha
+    cases hab : encAlpn alpn with
+    | none => rw [hab] at ha; simp at ha
+    | some ab =>
+      rw [hab] at ha
+      simp only [Option.bind_some, param] at ha
+      cases hl : lp16 ab with
+      | none => rw [hl] at ha; simp at ha
+      | some x =>
+        rw [hl] at ha; simp only [Option.map_some, Option.some.injEq] at ha; subst ha
+        simp only [lp16] at hl
+        split at hl
+        · rename_i hlt
+          simp only [Option.some.injEq] at hl; subst hl
+          obtain ⟨f', rfl⟩ : ∃ f', fuel = f' + 1 := ⟨fuel - 1, by omega⟩
+          have := httpsParamsF_cons f' 1 ab ((if nd then u16 2 ++ u16 0 else []) ++ ((if port > 0 then u16 3 ++ u16 2 ++ u16 port else []) ++ (h4 ++ (e ++ h6)))) h0 (by omega) hlt
+          rw [this]
+          have hc := lp8ListF_enc alpn ab ab.length hab (encAlpn_len alpn ab hab)
+          simp only [hpInterp_1, hc, Option.map_some, Option.bind_some, r2 f' _ (by omega)]
+        · simp at hl
+
 theorem decodeRData_enc (raw : Bytes) (typ : Nat) (d : EData) (x : Bytes) (pos : Nat)
     (hok : DataOk typ d) (he : encRData typ d = some x) :
     decodeRData raw typ ⟨pos, x⟩ = some (toRData d) := by
@@ -430,7 +716,65 @@ theorem decodeRData_enc (raw : Bytes) (typ : Nat) (d : EData) (x : Bytes) (pos :
     simp only [encRData] at he
     have := optsF_enc l x x.length he hl (encOpts_len l x he)
     simp [decodeRData, this, toRData]
-  | https _ _ _ _ _ _ _ _ => exact hok.elim
+  | https prio target alpn nd port v4 v6 ech =>
+    obtain ⟨rfl, hp, hn, hport, hech, halpn, hv4, hv4l, hv6, hv6l⟩ := hok
+    simp only [encRData] at he
+    split at he
+    · rename_i t a h4 e h6 ht ha hh4 hee hh6
+      simp only [Option.some.injEq] at he
+      subst he
+      -- every present parameter occupies at least one byte, so the byte count bounds the parameter count
+      have l1 : (if alpn = [] then 0 else 1) ≤ a.length := by
+        by_cases hz : alpn = []
+        · simp [hz]
+        · simp only [hz, if_false] at ha ⊢
+          cases hab : encAlpn alpn with
+          | none => rw [hab] at ha; simp at ha
+          | some ab => rw [hab] at ha; exact param_len _ _ _ ha
+      have l2 : (if nd then 1 else 0) ≤ (if nd then u16 2 ++ u16 0 else []).length := by
+        cases nd <;> simp [u16]
+      have l3 : (if port > 0 then 1 else 0) ≤ (if port > 0 then u16 3 ++ u16 2 ++ u16 port else []).length := by
+        by_cases hz : port > 0 <;> simp [hz, u16]
+      have l4 : (if v4 = [] then 0 else 1) ≤ h4.length := by
+        by_cases hz : v4 = []
+        · simp [hz]
+        · simp only [hz, if_false] at hh4 ⊢; exact param_len _ _ _ hh4
+      have l5 : (if ech = [] then 0 else 1) ≤ e.length := by
+        by_cases hz : ech = []
+        · simp [hz]
+        · simp only [hz, if_false] at hee ⊢; exact param_len _ _ _ hee
+      have l6 : (if v6 = [] then 0 else 1) ≤ h6.length := by
+        by_cases hz : v6 = []
+        · simp [hz]
+        · simp only [hz, if_false] at hh6 ⊢; exact param_len _ _ _ hh6
+      generalize hps : a ++ (if nd then u16 2 ++ u16 0 else []) ++
+        (if port > 0 then u16 3 ++ u16 2 ++ u16 port else []) ++ h4 ++ e ++ h6 = ps
+      have hcount : (if alpn = [] then 0 else 1) + (if nd then 1 else 0) + (if port > 0 then 1 else 0) +
+          (if v4 = [] then 0 else 1) + (if ech = [] then 0 else 1) + (if v6 = [] then 0 else 1) ≤ ps.length := by
+        rw [← hps]; simp only [List.length_append]; omega
+      have h3 := httpsParams_enc alpn nd port v4 v6 ech a h4 e h6 { priority := prio, target := toName target }
+        ps.length ha hh4 hee hh6 hport hv4 hv6 hcount
+      rw [hps] at h3
+      have hx : u16 prio ++ t ++ a ++ (if nd then u16 2 ++ u16 0 else []) ++
+          (if port > 0 then u16 3 ++ u16 2 ++ u16 port else []) ++ h4 ++ e ++ h6 = u16 prio ++ (t ++ ps) := by
+        rw [← hps]; simp [List.append_assoc]
+      rw [hx]
+      have h1 := wU16_u16 pos prio (t ++ ps) hp
+      have h2 := readName_encNameStr raw target t ps (pos + 2) hn ht
+      have hd : decodeRData raw 65 ⟨pos, u16 prio ++ (t ++ ps)⟩ = decHTTPS raw ⟨pos, u16 prio ++ (t ++ ps)⟩ := by
+        simp [decodeRData]
+      rw [hd]
+      simp only [decHTTPS, h1, h2, h3, Option.map_some, toRData]
+      have e1 : (if nd then true else false) = nd := by cases nd <;> rfl
+      have e2 : (if port > 0 then port else 0) = port := by
+        by_cases hz : port > 0
+        · simp [hz]
+        · have : port = 0 := by omega
+          simp [this]
+      have e3 : (if ech = [] then [] else ech) = ech := by
+        by_cases hz : ech = [] <;> simp [hz]
+      simp [e1, e2, e3]
+    · simp at he
   | other => exact hok.elim
 
 theorem decodeRR_enc (raw : Bytes) (r : ERR) (rb rest : Bytes) (pos : Nat) (hok : RROk r)
@@ -505,11 +849,11 @@ structure MsgOk (m : EMessage) : Prop where
   ar : ∀ r ∈ m.additional, RROk r
 
 /-- Whole-message round trip: every message made of a header with in-range fields, any number of
-    questions and any number of A / AAAA / NS / CNAME / PTR / OPT records in the three record
-    sections, with names of well-formed labels (≤ 255 octets), that `Message.Bytes` encodes, is
-    decoded by `DecodeMessage` to exactly the same header, questions and records. (HTTPS / SVCB
-    RDATA and the record types the encoder cannot write are outside this theorem; they are covered
-    by the correspondence campaign against dnsmessage.) -/
+    questions and any number of A / AAAA / NS / CNAME / PTR / OPT / HTTPS records in the three record
+    sections — every kind of RDATA `RR.Bytes` can write — with names of well-formed labels
+    (≤ 255 octets), that `Message.Bytes` encodes, is decoded by `DecodeMessage` to exactly the same
+    header, questions and records, HTTPS parameters included. (Record types only the decoder knows
+    are compared with dnsmessage by the correspondence campaign.) -/
 theorem C13_message_roundtrip (m : EMessage) (b : Bytes) (hok : MsgOk m) (he : encode m = some b) :
     decode b = some (toMessage m) := by
   simp only [encode] at he
